@@ -60,8 +60,28 @@ type RunOpts struct {
 
 // swarm draws the exploration policy of a run from its seed (not from the tape: it only shapes the
 // distribution the tape values are drawn from).
+// Deep is set for the thorough tier: wider policy ranges (deeper PCT, longer spans, more stalls).
+var Deep bool
+
 func swarm(seed uint64, tp *simrt.Tape) {
 	r := simrt.NewRng(seed ^ 0xA5A5A5A5)
+	if Deep && r.Intn(3) == 0 {
+		switch r.Intn(3) {
+		case 0:
+			tp.Policy = simrt.PolPCT
+			tp.PCTDepth = 3 + r.Intn(5)
+			tp.PCTSpan = []int{60, 150, 400, 1000}[r.Intn(4)]
+		case 1:
+			tp.Policy = simrt.PolFewPre
+			tp.PreemptP = []float64{0.005, 0.01, 0.4, 0.5}[r.Intn(4)]
+		default:
+			tp.Policy = simrt.PolUniform
+		}
+		tp.StallP = []float64{0, 0.02, 0.1, 0.2}[r.Intn(4)]
+		tp.SelectP = []float64{0.1, 0.5, 0.9}[r.Intn(3)]
+		tp.PoolP = []float64{0.05, 0.5, 0.8}[r.Intn(3)]
+		return
+	}
 	switch r.Intn(10) {
 	case 0, 1, 2:
 		tp.Policy = simrt.PolUniform
